@@ -507,7 +507,7 @@ func (w *world) layout() []*connPlan {
 		conns = append(conns, cp)
 	}
 	// HTTP/1.1 uploads with Content-Length answered at once with a long body (see genRaceSpec)
-	nr := run.Pick(16, 64)
+	nr := run.Pick(32, 128)
 	for i := 0; i < nr; i++ {
 		cp := &connPlan{id: len(conns), proto: "h1", preserve: i%2 == 1, stat: &connStat{}, stress: true}
 		var xs []*exchange
@@ -593,7 +593,7 @@ func main() {
 	for phase := 0; phase < 2; phase++ {
 		par := 6
 		if phase == 1 {
-			par = 16
+			par = 32
 		}
 		sem := make(chan struct{}, par)
 		var wg sync.WaitGroup
